@@ -333,7 +333,12 @@ func (s *Sim) enabled(t *Task) bool {
 		}
 		return h == nil
 	case opMutex:
-		return s.mutexes[op.Mu] == nil
+		h := s.mutexes[op.Mu]
+		if h != nil && !op.contended {
+			op.contended = true
+			s.probe("lock-contention-mutex")
+		}
+		return h == nil
 	case opAwait:
 		for _, w := range op.Wait {
 			if !w.done {
